@@ -271,8 +271,29 @@ func init() {
 					default:
 						b = orb.Collection{a}
 					}
-				case 3: // drop / add a trailing member
+				case 3: // drop / add a trailing member (half of the time the shorter value is a view of the very same array)
 					b = typedClone(a)
+					if c.rng.Intn(2) == 0 {
+						switch v := a.(type) {
+						case orb.MultiPoint:
+							if len(v) > 1 {
+								b = v[:len(v)-1]
+							}
+						case orb.LineString:
+							if len(v) > 1 {
+								b = v[:len(v)-1]
+							}
+						case orb.Ring:
+							if len(v) > 1 {
+								b = v[:len(v)-1]
+							}
+						case orb.Polygon:
+							if len(v) > 1 {
+								b = v[:len(v)-1]
+							}
+						}
+						break
+					}
 					switch v := b.(type) {
 					case orb.MultiPoint:
 						b = append(v, orb.Point{1, 1})
